@@ -639,6 +639,12 @@ fn spawn_async_ao_list_in_task'''),
         ('array-keys-not-quoted', 'brush-core/src/commands.rs', "                                s.push_str(&escape::quote_if_needed(\n                                    key.to_string().as_str(),\n                                    escape::QuoteMode::SingleQuote,\n                                ));", "                                s.push_str(key.to_string().as_str());"),
         ('elements-not-separated', 'brush-core/src/commands.rs', "                            if i > 0 {\n                                s.push(' ');\n                            }", "                            if i > 1 {\n                                s.push(' ');\n                            }"),
     ],
+    'U34': [
+        ('unset-readonly-variable-accepts-its-first-value', 'brush-core/src/variables.rs', "    pub fn assign(&mut self, value: ShellValueLiteral, append: bool) -> Result<(), error::Error> {\n        if self.is_readonly() {", "    pub fn assign(&mut self, value: ShellValueLiteral, append: bool) -> Result<(), error::Error> {\n        if self.is_readonly() && self.value.is_set() {"),
+        ('declare-in-a-function-looks-everywhere', 'brush-builtins/src/declare.rs', "        let lookup = if create_var_local {", "        let lookup = if matches!(verb, DeclareVerb::Local) {"),
+        ('declare-g-still-creates-a-local', 'brush-builtins/src/declare.rs', "                && context.shell.in_function()\n                && !self.create_global);", "                && context.shell.in_function());"),
+        ('local-lookup-reaches-callers-locals', 'brush-builtins/src/declare.rs', "            EnvironmentLookup::OnlyInCurrentLocal\n        } else {\n            EnvironmentLookup::Anywhere", "            EnvironmentLookup::OnlyInLocal\n        } else {\n            EnvironmentLookup::Anywhere"),
+    ],
     'U33': [
         ('plain-key-tried-before-the-quote-aware-key', 'brush-parser/src/word.rs', [('            "[" inner:array_index() "]=" value:$([_]*) {\n                (Some(inner.to_owned()), value.to_owned())\n            } /\n            "[" inner:$((!"]" [_])*) "]=" value:$([_]*) {', '            "[" inner:$((!"]" [_])*) "]=" value:$([_]*) {\n                (Some(inner.to_owned()), value.to_owned())\n            } /\n            "[" inner:array_index() "]=" value:$([_]*) {')]),
         ('quote-aware-alternative-dropped', 'brush-parser/src/word.rs', '            "[" inner:array_index() "]=" value:$([_]*) {\n                (Some(inner.to_owned()), value.to_owned())\n            } /\n', ''),
